@@ -39,10 +39,29 @@ type DirectedResult struct {
 }
 
 func DirectedHeldEpoch(base string, seed int64, useCopy bool) (*DirectedResult, error) {
+	return directedHeldEpoch(base, seed, useCopy, false)
+}
+
+// DirectedHeldEpochBuilt is the same schedule with an online copy on an index
+// whose first file segment was made by the offline builder (its file is not
+// named after its segment id; ScorchDisk_mc_builder.cfg, and
+// ScorchDisk_mc_builder_byid.cfg for the design that schedules files by id).
+// The builder's documents belong to no recorded batch, so Records is empty:
+// the verdict is the copy's success and the file-level observations.
+func DirectedHeldEpochBuilt(base string, seed int64) (*DirectedResult, error) {
+	return directedHeldEpoch(base, seed, true, true)
+}
+
+func directedHeldEpoch(base string, seed int64, useCopy, built bool) (*DirectedResult, error) {
 	dir := filepath.Join(base, "idx")
 	defer os.RemoveAll(base)
 	res := &DirectedResult{}
 	wl := Workload{Name: "directed", Writers: 1, Safe: false, KVConfig: map[string]interface{}{"unsafe_batch": true}}
+	if built {
+		wl.BuilderIDs = []string{"a", "b"}
+		// keep the planner from merging the builder's segment away before the schedule asks for it
+		wl.KVConfig["scorchMergePlanOptions"] = map[string]interface{}{"FloorSegmentSize": 1}
+	}
 	r, err := Start(dir, wl, seed, 0)
 	if err != nil {
 		return nil, err
@@ -57,14 +76,16 @@ func DirectedHeldEpoch(base string, seed int64, useCopy bool) (*DirectedResult, 
 		_, err := r.Submit(BatchSpec{W: 1, Puts: puts, Dels: dels})
 		return err
 	}
-	if err := step([]string{"a"}, nil); err != nil {
-		return nil, err
-	}
-	if !r.Quiesce(20 * time.Second) {
-		return nil, fmt.Errorf("directed: no quiescence after batch 1")
-	}
-	if err := step([]string{"b"}, nil); err != nil {
-		return nil, err
+	if !built {
+		if err := step([]string{"a"}, nil); err != nil {
+			return nil, err
+		}
+		if !r.Quiesce(20 * time.Second) {
+			return nil, fmt.Errorf("directed: no quiescence after batch 1")
+		}
+		if err := step([]string{"b"}, nil); err != nil {
+			return nil, err
+		}
 	}
 	if !r.Quiesce(20 * time.Second) {
 		return nil, fmt.Errorf("directed: no quiescence after batch 2")
@@ -158,7 +179,10 @@ func DirectedHeldEpoch(base string, seed int64, useCopy bool) (*DirectedResult, 
 			res.Samples = append(res.Samples, map[string]any(ev))
 		}
 	}
-	res.Records = CrashRecords(r.Rec.Events())
+	if !built {
+		res.Records = CrashRecords(r.Rec.Events())
+	}
+	res.Events = r.Rec.Events()
 	return res, nil
 }
 
